@@ -5,6 +5,8 @@ import (
 	"fmt"
 	"net"
 	"strconv"
+	"strings"
+	"sync"
 	"time"
 
 	"github.com/go-i2p/common/data"
@@ -180,6 +182,91 @@ func runC17(c *core.Ctx) {
 			c.Sample(gen.Shape{"host": host, "port": port, "options": len(opts)})
 		}
 	})
+	c.Job("concurrent-accessors", c.N(60, 1200), func(i int, r *core.Rand) { c17Concurrent(c, i, r) })
+}
+
+// c17Concurrent: eight addresses queried at the same time, one goroutine each (and every second
+// round all goroutines on ONE address): every accessor answers for the options of the address it
+// was called on, as it does alone. (The accessors take option keys as arguments; state kept between
+// calls - the last key looked up, a parsed port - is shared by all addresses of the process.)
+func c17Concurrent(c *core.Ctx, i int, r *core.Rand) {
+	const G = 8
+	digest := func(ra *router_address.RouterAddress) string {
+		var sb strings.Builder
+		h, herr := ra.Host()
+		p, perr := ra.Port()
+		sk, serr := ra.StaticKey()
+		iv, ierr := ra.InitializationVector()
+		fmt.Fprint(&sb, h, herr != nil, "|", p, perr != nil, "|", ra.HasValidHost(), ra.HasValidPort(), ra.IPVersion(), "|", sk, serr != nil, "|", iv, ierr != nil, "|")
+		for _, k := range []string{"host", "port", "s", "i", "caps", "v", "hos", "hostx", "mtu"} {
+			fmt.Fprintf(&sb, "%q;", ra.GetOption(data.I2PString(append([]byte{byte(len(k))}, k...))))
+		}
+		return sb.String()
+	}
+	var addrs []*router_address.RouterAddress
+	for len(addrs) < G {
+		opts := map[string]string{}
+		if r.Chance(4, 5) {
+			opts["host"] = hostPool[r.Pick(len(hostPool))]
+		}
+		if r.Chance(4, 5) {
+			opts["port"] = portPool[r.Pick(len(portPool))]
+		}
+		if r.Chance(1, 2) {
+			opts["s"] = string(r.Bytes([]int{32, 32, 31, 33}[r.Pick(4)]))
+		}
+		if r.Chance(1, 2) {
+			opts["i"] = string(r.Bytes([]int{16, 16, 15, 17}[r.Pick(4)]))
+		}
+		if r.Chance(1, 2) {
+			opts["caps"] = []string{"BC", "6", "4", "46"}[r.Pick(4)]
+		}
+		ra, err := router_address.NewRouterAddress(5, timeZero(), []string{"NTCP2", "SSU2"}[r.Pick(2)], opts)
+		if err != nil || ra == nil {
+			continue
+		}
+		addrs = append(addrs, ra)
+	}
+	shared := i%2 == 1
+	base := make([]string, G)
+	for g := range addrs {
+		if shared {
+			addrs[g] = addrs[0]
+		}
+		base[g] = digest(addrs[g])
+	}
+	c.Eval(1)
+	c.Nontrivial([]byte("c17-concurrent"), []byte(base[0]), []byte(fmt.Sprint(i)))
+	bad := make([]string, G)
+	var wg sync.WaitGroup
+	start := make(chan struct{})
+	for g := 0; g < G; g++ {
+		g := g
+		wg.Add(1)
+		go func() {
+			defer wg.Done()
+			defer func() {
+				if pv := recover(); pv != nil {
+					bad[g] = fmt.Sprint("panic: ", pv)
+				}
+			}()
+			<-start
+			for k := 0; k < 60 && bad[g] == ""; k++ {
+				if got := digest(addrs[g]); got != base[g] {
+					bad[g] = fmt.Sprintf("alone: %.300s\nconcurrently: %.300s", base[g], got)
+				}
+			}
+		}()
+	}
+	close(start)
+	wg.Wait()
+	for g := range bad {
+		if bad[g] != "" {
+			c.Violate("router_address.RouterAddress accessors", "answers-differ-under-concurrent-use", gen.Shape{"goroutines": G, "one_shared_address": shared}, []byte(base[g]), bad[g])
+			return
+		}
+	}
+	c.Bucket(fmt.Sprintf("concurrent-accessors-ok/shared=%v", shared))
 }
 
 func c17Check(c *core.Ctx, path string, ra *router_address.RouterAddress, opts map[string]string, hasHost bool, host string, hasPort bool, port string, hasS bool, sVal string, hasI bool, iVal string, enc []byte) {
